@@ -18,6 +18,7 @@ of a symbolic number raises ``Unsupported`` (an engine error, never a silent con
 from __future__ import annotations
 
 import math
+import os
 import threading
 import time
 from fractions import Fraction
@@ -1013,7 +1014,11 @@ def explore(harness, params=None, model="R", seed=0, witness_every=1, max_paths=
     worklist = [[]]
     n_done = 0
     vio_seen = {}
+    deadline = time.time() + float(os.environ.get("VERIF_TASK_TIMEOUT", "2400"))
     while worklist:
+        if time.time() > deadline:
+            res.engine_errors.append("shard time budget exhausted with %d prefixes left" % len(worklist))
+            break
         prefix = worklist.pop()
         c = Ctx(model=model, prefix=prefix, seed=seed, twin=twin, stats=st)
         c.shard = shard
